@@ -30,6 +30,9 @@ META = {
 }
 
 
+NO_WORKER_THREAD = True      # the controller drives its own threads
+
+
 def C(fn, *args, **kw):
     return (fn, args, kw)
 
